@@ -73,6 +73,36 @@ def sweep_history(prop, seed, agg, opts):
                 # ... and the refetch fails
                 for kind2 in fault_kinds_for(keys[k])[:4]:
                     plan.append((o, k, kind, {"then": kind2}))
+    # zombie schedules: a fault in the first pool chunk of a >= 6-miss parallel request, re-run under several
+    # scheduling policies so that another chunk is still in flight when the request fails
+    zplan = []
+    if base["knobs"].get("parallel"):
+        for o in base["ops"]:
+            ms = w.miss_log.get(o["id"], []) if o["op"] == "GET" else []
+            if len(ms) < 6:
+                continue
+            for k in ms[:5]:
+                kinds = [x for x in fault_kinds_for(keys[k]) if x in ("ERR_BEFORE", "NOTFOUND", "EMFILE", "CONN_ERR", "PP_ERR_BEFORE")]
+                for kind in kinds[:2]:
+                    for pol in ({"policy": "pct", "d": 1}, {"policy": "pct", "d": 3}, {"policy": "sticky", "p": 0.5},
+                                {"policy": "uniform"}):
+                        zplan.append((o, k, kind, pol))
+    zl = opts.get("zombie_limit", 60)
+    if len(zplan) > zl:
+        idx = sorted(rng.sample(range(len(zplan)), zl))
+        zplan = [zplan[i] for i in idx]
+    agg.c["sweep_zombie_schedules"] += len(zplan)
+    zid = 20_000
+    for (o, k, kind, pol) in zplan:
+        rec = _clone(base)
+        rec["knobs"]["sched"] = pol
+        rec["knobs"]["allow_missing"] = False if kind == "NOTFOUND" else rec["knobs"].get("allow_missing", True)
+        rec["faults"] = [make_fault(rng, o["id"], kind, k)]
+        pos = [i for i, x in enumerate(rec["ops"]) if x["id"] == o["id"]][0]
+        rec["ops"].insert(pos + 1, {"id": zid, "op": "GET", "keys": list(o["keys"]), "dt": 0})
+        rec["ops"].insert(pos + 2, {"id": zid + 1, "op": "GET", "keys": list(o["keys"])[5:] or list(o["keys"]), "dt": 0})
+        ww = run_record(rec)
+        agg.add_world(ww, tag="zombie@%s.k%d.%s.%s" % (o["id"], k, kind, pol["policy"]))
     if len(plan) > flimit:
         idx = sorted(rng.sample(range(len(plan)), flimit))
         plan = [plan[i] for i in idx]
